@@ -125,8 +125,42 @@ def make_view_items(names):
         return ('items', tuple(out))
     return v
 
+def nested_impl_headers(b):
+    """headers of the impl blocks written inside a body (the Debug field wrapper, ...): they carry the
+    type's generics and where-clause as well"""
+    out = []
+    i, n = 0, len(b)
+    while i < n:
+        if b[i] == 'impl' and (i == 0 or b[i - 1] in (';', '{', '}', ']')):
+            j, d = i + 1, 0
+            while j < n:
+                t = b[j]
+                if t in ('(', '['):
+                    d += 1
+                elif t in (')', ']'):
+                    d -= 1
+                elif t == '{':
+                    if d == 0 and b[j - 1] not in ('<', ',', '='):
+                        break
+                    # a brace group inside the header (const argument): skip it
+                    k, dd = j, 0
+                    while k < n:
+                        if b[k] == '{':
+                            dd += 1
+                        elif b[k] == '}':
+                            dd -= 1
+                            if dd == 0:
+                                break
+                        k += 1
+                    j = k
+                j += 1
+            out.append(tuple(b[i:j]))
+            i = j
+        i += 1
+    return tuple(out)
+
 def view_headers(flat):
-    return ('headers', tuple((key, tuple(h)) for key, h, b in segments(flat)))
+    return ('headers', tuple((key, tuple(h), nested_impl_headers(b)) for key, h, b in segments(flat)))
 
 def view_skeleton(flat):
     return ('skeleton', tuple(key for key, h, b in segments(flat)))
